@@ -379,6 +379,43 @@ def _prefork_task(task):
     return acc
 
 
+def _copied_task(task):
+    """an instance is duplicated (copy.copy / copy.deepcopy / pickle round trip) BEFORE start(): the duplicate, and the original after
+    it, must still take their scalar from the supplied entropy function (its duplicate, for the deep copies) and from nothing else"""
+    import copy, pickle
+    name, side = task
+    acc = Acc()
+    inst, why = T.try_get(name)
+    if inst is None:
+        return acc
+    x = 5 % inst.q
+    fam = inst.kind if inst.small else inst.name
+    for how, dup in (("copy.copy", copy.copy), ("copy.deepcopy", copy.deepcopy), ("pickle", lambda o: pickle.loads(pickle.dumps(o)))):
+        ent = inst.entropy(x, extra=1)
+        s = inst.new(side, b"pw", C.ids_for(side, 1), entropy=ent)
+        d = T.observe(dup, s)
+        acc.n(transitions=1)
+        if d[0] != "ok":
+            acc.note("%s: %s of an unstarted instance is not supported (%s)" % (fam, how, d[1]))
+            continue
+        for which, obj in (("duplicate", d[1]), ("original", s)):
+            m = T.observe(obj.start)
+            xo = T.read_scalar(inst, obj) if m[0] == "ok" else None
+            acc.n(states=1, transitions=2)
+            if m[0] != "ok" or xo != x:
+                acc.violation("C11/%s/duplicated-before-start" % fam,
+                              {"what": "after %s of an unstarted instance, the %s does not take its scalar from the supplied entropy function" % (how, which),
+                               "replay": {"fn": "copied", "inst": inst.desc, "side": side, "how": how, "which": which}, "expected": x,
+                               "observed": [m[0] if m[0] == "ok" else m, xo]})
+        if how == "copy.copy" and len(ent.calls) != 2:
+            acc.violation("C11/%s/duplicated-before-start" % fam,
+                          {"what": "a shallow copy and its original together made %d draws from the shared supplied entropy function (2 expected)" % len(ent.calls),
+                           "replay": {"fn": "copied", "inst": inst.desc, "side": side, "how": how, "which": "ledger"}, "expected": 2, "observed": len(ent.calls)})
+        acc.seen((name, side, how))
+    acc.n(traces=1)
+    return acc
+
+
 def run(tier, seed):
     acc = Acc()
     quick = tier == "quick"
@@ -415,13 +452,16 @@ def run(tier, seed):
             tasks.append(("ledger", (name, side)))
     for key in sorted(PREBUILT):
         tasks.append(("prefork", (key,)))
+    for name in ("T23", "E37", "ParamsEd25519", "Params1024"):
+        for side in "ABS":
+            tasks.append(("copied", (name, side)))
     for name in ("Params1024", "Params2048", "Params3072"):
         for unit in (16, 8):
             tasks.append(("nb", (name, unit)))
     for name in ["T23", "ParamsEd25519", "Params1024"]:
         for side in "ABS":
             tasks.append(("falsy", (name, side)))
-    w = {"width": 1, "shipped": 3000, "toy": 1500, "ledger": 2000, "nb": 2500, "falsy": 500, "prefork": 400}
+    w = {"width": 1, "shipped": 3000, "toy": 1500, "ledger": 2000, "nb": 2500, "falsy": 500, "prefork": 400, "copied": 400}
     def cost(t):
         if t[0] != "width":
             return w[t[0]]
@@ -436,7 +476,7 @@ def run(tier, seed):
 
 def _dispatch(t):
     return {"width": _width_task, "shipped": _shipped_task, "toy": _toy_scalar_task, "ledger": _ledger_task, "nb": _neighbours_task,
-            "falsy": _falsy_task, "prefork": _prefork_task}[t[0]](t[1])
+            "falsy": _falsy_task, "prefork": _prefork_task, "copied": _copied_task}[t[0]](t[1])
 
 
 def replay(rec):
@@ -457,6 +497,17 @@ def replay(rec):
         s = inst.new(r["side"], b"pw", C.ids_for(r["side"], 1), entropy=ent)
         m = T.observe(s.start)
         return [m[0], T.read_scalar(inst, s) if m[0] == "ok" else None, len(ent.calls)]
+    if fn == "copied":
+        import copy, pickle
+        inst = T.build_inst(r["inst"])
+        ent = inst.entropy(5 % inst.q, extra=1)
+        s = inst.new(r["side"], b"pw", C.ids_for(r["side"], 1), entropy=ent)
+        d = {"copy.copy": copy.copy, "copy.deepcopy": copy.deepcopy, "pickle": lambda o: pickle.loads(pickle.dumps(o))}[r["how"]](s)
+        out = {}
+        for which, obj in (("duplicate", d), ("original", s)):
+            m = T.observe(obj.start)
+            out[which] = [m[0] if m[0] == "ok" else m, T.read_scalar(inst, obj) if m[0] == "ok" else None]
+        return len(ent.calls) if r["which"] == "ledger" else out[r["which"]]
     if fn in ("random_scalar", "session"):
         inst = T.build_inst(r["inst"])
         sc = T.Script(list(r["answers"]))
